@@ -15,9 +15,13 @@ Stage 3: oracles on the implementation, independent of the model:
   (d) from_tk of random tket circuits computes that circuit.
 """
 import json
+import os
 import random
 
-import numpy as np
+for _v in ("OMP_NUM_THREADS", "OPENBLAS_NUM_THREADS", "MKL_NUM_THREADS"):
+    os.environ.setdefault(_v, "1")          # many small arrays: threads only add overhead
+
+import numpy as np                          # noqa: E402
 
 import common
 from common import Report, freeze
@@ -38,7 +42,7 @@ FINDINGS = {
     "F31": "to_tk ignores Discard on bits: the discarded bit stays in the post-processing and in the output",
     "F32": "to_tk swaps bits through the unit Bit('tmp', 0) whose index[0] is 0: rename_units moves a "
            "post-selection recorded for tket bit 0 to the swapped bit",
-    "F33": "from_tk make_units_adjacent: when the second qubit is two or more places to the right, the wire "
+    "F33": "from_tk make_units_adjacent: when the second qubit is three or more places to the right of the first, the wire "
            "next to the first qubit is moved away instead of the second qubit being brought in; the gate hits the wrong qubit",
     "F34": "to_tk Measure(override_bits=True): the destructive variant keeps the measured qubits in the "
            "register list, and overriding a register after post-processing started is applied before it",
@@ -244,7 +248,9 @@ def exportable(prog):
 
 
 def gen_tk(rng, tk):
-    nq, nb = rng.randint(1, 4), rng.randint(0, 3)
+    nq = rng.randint(1, 5)
+    final = rng.random() < 0.7                      # measure every qubit at the end
+    nb = nq if final else rng.randint(0, 3)
     c = tk.Circuit(nq, nb)
     for _ in range(rng.randint(0, 9)):
         k = rng.random()
@@ -255,15 +261,20 @@ def gen_tk(rng, tk):
                 getattr(c, g)(rng.randint(-40, 40) / 16.0, q)
             else:
                 getattr(c, g)(q)
-        elif k < 0.8 and nq >= 2:
+        elif k < 0.85 and nq >= 2:
             g = rng.choice(["CX", "CX", "CZ", "CRz"] + (["CY", "SWAP"] if rng.random() < 0.08 else []))
             a, b = rng.sample(range(nq), 2)
             if g == "CRz":
                 c.CRz(rng.randint(-40, 40) / 16.0, a, b)
             else:
                 getattr(c, g)(a, b)
-        elif nb:
+        elif nb and not final:
             c.Measure(rng.randrange(nq), rng.randrange(nb))
+    if final:
+        order = list(range(nq))
+        rng.shuffle(order)
+        for q, b in enumerate(order):
+            c.Measure(q, b)
     return c
 
 
@@ -281,8 +292,8 @@ CORPUS = [
     ("F31", [[], [[[0, [1]], 0], [[5, 1, 1, 0], 0], [[6, [0]], 0]]]),
     # F32: Ket(0,1,0) >> Bra(0) @ Measure(2) >> Swap(bit, bit)
     ("F32", [[], [[[0, [0, 1, 0]], 0], [[1, [0]], 0], [[5, 2, 1, 0], 0], [[4, 0, 0], 0]]]),
-    # F34: Ket(0,0) @ Bits(0) @ Ket(0) >> Id(1) @ Measure(1, True, True) @ Id(1) >> Id(qubit @ bit) @ X
-    ("F34", [[], [[[0, [0, 0]], 0], [[2, [0], 0], 2], [[0, [0]], 3], [[5, 1, 1, 1], 1], [[3, 4, 1, 0, 0], 2]]]),
+    # F34: Ket(0,0) @ Bits(0) @ Ket(1) >> Id(1) @ Measure(1, True, True) @ Id(1) >> Id(qubit @ bit) @ Measure()
+    ("F34", [[], [[[0, [0, 0]], 0], [[2, [0], 0], 2], [[0, [1]], 3], [[5, 1, 1, 1], 1], [[5, 1, 1, 0], 2]]]),
     # F35: Ket(0) >> Measure() >> NOT
     ("F35", [[], [[[0, [0]], 0], [[5, 1, 1, 0], 0], [[8, 1, 1, 1], 0]]]),
     # F36: Ket(0) >> Measure() >> Copy >> Id(bit ** 2) @ Bits(0)
@@ -307,24 +318,54 @@ def has_override(c):
     return any(isinstance(b, Measure) and b.override_bits for b in c.boxes)
 
 
+_F9_CHECKED = {}
+
+
+def f9_blocks(box):
+    """Does DisCoPy's mixed evaluation fail on this very box with F9's AttributeError?"""
+    key = box.name
+    if key not in _F9_CHECKED:
+        from discopy.quantum import cqmap
+        try:
+            cqmap.Functor()(box)
+            _F9_CHECKED[key] = False
+        except AttributeError as exc:
+            _F9_CHECKED[key] = "classical" in str(exc)
+    return _F9_CHECKED[key]
+
+
+def live_size(c):
+    """max over the layers of 2 * qubits + bits (log2 of the CQMap dimension)."""
+    best = 0
+    for left, box, right in c.layers:
+        for t in (left @ box.dom @ right, left @ box.cod @ right):
+            names = [x.name for x in t]
+            best = max(best, 2 * names.count("qubit") + names.count("bit"))
+    return best
+
+
 def reference(rep, tksim, c):
-    """Local evaluation of a circuit: DisCoPy's mixed evaluation of init_and_discard();
-    when that is blocked by F9 the harness's own exact evaluator (validated against
-    DisCoPy's on every case where both run)."""
+    """Local evaluation of a circuit: DisCoPy's mixed evaluation of init_and_discard().
+    When that is blocked by F9 (checked on the offending box itself), or the circuit
+    keeps more than 4 qubits alive at once (from_tk prepares every qubit up front; the
+    CQMap evaluation then takes minutes), the harness's own exact evaluator is used; it is
+    cross-checked against DisCoPy's evaluation on every case where both run."""
+    from discopy.quantum.circuit import Measure
     full = c.init_and_discard()
     own = None
     try:
         own = tksim.dsim(full)
     except NotImplementedError:
         pass
-    try:
-        ev = np.asarray(common.with_timeout(20, lambda: full.eval(mixed=True)).array)
-    except AttributeError as exc:
-        if has_override(full) and "classical" in str(exc) and own is not None:
-            rep.known_finding("F9", FINDINGS["F9"])
-            rep.count("reference:dsim(F9)")
-            return own
-        raise
+    blockers = [b for b in full.boxes if isinstance(b, Measure) and b.override_bits]
+    if own is not None and blockers and all(f9_blocks(b) for b in blockers):
+        rep.known_finding("F9", FINDINGS["F9"])
+        rep.count("reference:dsim(F9)")
+        return own
+    if own is not None and live_size(full) > 9:
+        rep.count("reference:dsim(size)")
+        return own
+    ev = np.asarray(common.with_timeout(60, lambda: full.eval(mixed=True)).array)
     rep.count("reference:eval")
     if own is not None and (own.shape != ev.shape or not np.allclose(own, ev, atol=TOL)):
         raise AssertionError("harness evaluator disagrees with DisCoPy's mixed evaluation")
@@ -381,6 +422,12 @@ def check_export(rep, ti, tksim, dtk, prog, answer, name):
                                bool(flags[6]))
         return
     tkc = c.to_tk()
+    # the conjecture to_tk_routing_trigger_free_stmt, evaluated by the model on this case
+    if not any(flags):
+        rep.count("routing:trigger-free:" + ("ok" if rok else "FAILS"))
+        if not rok:
+            rep.violation("the model's bit routing fails on a circuit that meets no trigger predicate of a known "
+                          "finding (unclassified defect)", dict(payload))
     # scalar: numerically only
     want = ti.scalar_of_factors(mt[4])
     if abs(complex(tkc.scalar) - complex(want)) > TOL * (1 + abs(complex(want))):
@@ -431,13 +478,26 @@ def check_export(rep, ti, tksim, dtk, prog, answer, name):
             rep.count("oracle_b:pass")
     # (c) import the exported circuit back
     if d1 is not None:
-        check_import(rep, ti, tksim, tkc, d1, dict(payload, replay=snippet("roundtrip", prog)), "roundtrip")
+        check_import(rep, ti, tksim, tkc, d1, dict(payload, replay=snippet("roundtrip", prog)), "roundtrip",
+                     f32=bool(agree and flags[3]))
 
 
-def check_import(rep, ti, tksim, tkc, want, payload, family):
+def check_import(rep, ti, tksim, tkc, want, payload, family, f32=False):
     """from_tk on one tket circuit: correspondence + oracle (same evaluation as `want`)."""
     from discopy.quantum.circuit import Circuit
     prog2 = ti.tk_to_model(tkc)
+    written = {c[3][0] for c in prog2[0][2] if c[0] == 0 and c[3]}
+    dangling = [k for k, _ in prog2[0][3] if k not in written]
+    if dangling:
+        # a post-selection on a bit no Measure writes: from_tk has no defined answer.  to_tk only
+        # produces one through F32 (the post-selection moved to the swapped bit).
+        if f32:
+            rep.known_finding("F32", FINDINGS["F32"])
+            rep.count(family + ":skipped(dangling post-selection, F32)")
+        else:
+            rep.violation("to_tk produced a post-selection on a bit that is never measured",
+                          dict(payload, tk=repr(tkc)))
+        return
     impl = common.with_timeout(20, ti.observe_from_tk, tkc)
     ans = common.run_model("tk", [[2, prog2[0], prog2[1]]])[0]
     res, trace_ok, routing_ok, (f18, f33) = ans[1]
@@ -486,6 +546,7 @@ def check_import(rep, ti, tksim, tkc, want, payload, family):
         known_or_violation("the circuit returned by from_tk does not compute the tket circuit")
     elif not psel and not (trace_ok and routing_ok):
         rep.count(family + ":model-flags-violation-but-numerically-equal")
+        rep.extra.setdefault("numerically_invisible", []).append([repr(tkc), trace_ok, routing_ok])
 
 
 def replay(kind, payload):
@@ -511,10 +572,7 @@ def replay(kind, payload):
     else:
         import pytket as tk
         from discopy.quantum.circuit import Circuit
-        nq, nb, cmds = payload
-        t = tk.Circuit(nq, nb)
-        for name, params, qs, bs in cmds:
-            getattr(t, name)(*(params + qs + bs))
+        t = build_tk(tk, payload)
         print("tket:", t.get_commands())
         print("distribution:", np.round(tksim.distribution(ti.dtk.Circuit.upgrade(t)), 6).tolist())
         c2 = Circuit.from_tk(t)
@@ -523,11 +581,82 @@ def replay(kind, payload):
 
 
 # ---------------------------------------------------------------- driver
-def run(tier, seed):
+class MiniRep:
+    """The part of common.Report the per-case checks use; picklable, merged by the parent."""
+
+    def __init__(self):
+        self.hist, self.known, self.violations, self.extra = {}, [], [], {}
+        self.disagreements_checked = 0
+        self.cases = []
+
+    def count(self, key, n=1):
+        self.hist[key] = self.hist.get(key, 0) + n
+
+    def known_finding(self, fid, what):
+        if (fid, what) not in self.known:
+            self.known.append((fid, what))
+
+    def violation(self, what, payload, found_input=True):
+        self.violations.append((what, payload, found_input))
+
+    def case(self, canonical, nontrivial=True, sample=None):
+        self.cases.append((canonical, nontrivial, sample))
+
+
+def _worker(job):
+    kind, items = job
     import tk_impl as ti
     import tksim
     import pytket as tk
     dtk = ti.dtk
+    rep = MiniRep()
+    for item in items:
+        if kind == "export":
+            name, prog, ans = item
+            rep.count("stream:" + name)
+            rep.count("depth:%d" % min(len(prog[1]), 10))
+            rep.case(["export", prog], nontrivial=len(prog[1]) >= 2,
+                     sample={"stream": name, "circuit": ti.pretty(prog)})
+            try:
+                check_export(rep, ti, tksim, dtk, prog, ans, name)
+            except common.CaseTimeout:
+                rep.violation("timeout while checking a circuit",
+                              {"program": prog, "replay": snippet("export", prog)})
+            except Exception as exc:   # noqa  (an oracle that cannot run is not a pass)
+                rep.violation("the check itself failed on a circuit: %s: %s" % (type(exc).__name__, exc),
+                              {"program": prog, "circuit": ti.pretty(prog), "replay": snippet("export", prog)})
+        else:
+            raw = item
+            t = build_tk(tk, raw)
+            rep.case(["import", raw], nontrivial=len(raw[2]) >= 2,
+                     sample={"stream": "tket", "tk": repr(raw)})
+            rep.count("stream:tket")
+            payload = {"tk_raw": raw, "replay": snippet("import", raw)}
+            try:
+                up = dtk.Circuit.upgrade(t)
+                want = tksim.distribution(up)
+                check_import(rep, ti, tksim, t, want, payload, "tket")
+            except common.CaseTimeout:
+                rep.violation("timeout while checking a tket circuit", payload)
+            except Exception as exc:   # noqa
+                rep.violation("the check itself failed on a tket circuit: %s: %s" % (type(exc).__name__, exc),
+                              payload)
+    return rep
+
+
+def build_tk(tk, raw):
+    nq, nb, cmds = raw
+    t = tk.Circuit(nq, nb)
+    for name, params, qs, bs in cmds:
+        getattr(t, name)(*(list(params) + list(qs) + list(bs)))
+    return t
+
+
+def run(tier, seed):
+    import multiprocessing
+    import tk_impl as ti
+    import tksim
+    import pytket as tk
     rep = Report("C13", tier, seed)
     proof_ok = common.proof_stage(rep, "C13")
     rng = random.Random(seed)
@@ -537,17 +666,17 @@ def run(tier, seed):
     f10_prefix = [[[0, [1, 0]], 0]]
     scope = small_scope(f10_prefix, 3 if quick else 4)
     if quick:
-        scope = [p for i, p in enumerate(scope) if i % 3 == 0 or len(p[1]) <= 3]
+        scope = [p for i, p in enumerate(scope) if i % 4 == 0 or len(p[1]) <= 3]
     cases += [("scope", p) for p in scope]
-    n_rand = 500 if quick else 6000
+    n_rand = 800 if quick else 12000
     for i in range(n_rand):
         wild = 0.5 if i % 7 == 0 else 0.0           # ~15 % malformed / non-exportable stream
         clean = (i % 2 == 0) and not wild
         cases.append(("wild" if wild else "clean" if clean else "random",
-                      gen_circuit(rng, ti, rng.randint(1, 10), wild=wild,
+                      gen_circuit(rng, ti, rng.randint(1, 9), wild=wild,
                                   open_dom=rng.random() < 0.25, clean=clean)))
     answers = common.run_model_parallel("tk", [[1, p] for _, p in cases])
-    seen = set()
+    seen, items = set(), []
     for (name, prog), ans in zip(cases, answers):
         key = common.to_sexp(prog)
         if key in seen:
@@ -555,38 +684,38 @@ def run(tier, seed):
         seen.add(key)
         if ans[0] != 0:
             raise RuntimeError("model could not decode %r" % (prog,))
-        rep.count("stream:" + name)
-        rep.count("depth:%d" % min(len(prog[1]), 10))
-        rep.case(["export", prog], nontrivial=len(prog[1]) >= 2,
-                 sample={"stream": name, "circuit": ti.pretty(prog)})
-        rep.programs += 1
-        try:
-            check_export(rep, ti, tksim, dtk, prog, ans, name)
-        except common.CaseTimeout:
-            rep.violation("timeout while checking a circuit", {"program": prog, "replay": snippet("export", prog)})
-        except Exception as exc:   # noqa  (an oracle that cannot run is not a pass)
-            rep.violation("the check itself failed on a circuit: %s: %s" % (type(exc).__name__, exc),
-                          {"program": prog, "circuit": ti.pretty(prog), "replay": snippet("export", prog)})
+        items.append((name, prog, ans))
 
     # (d) random tket circuits over (mostly) supported operations
-    n_tk = 250 if quick else 3000
-    hand = [tk.Circuit(4).X(0).CX(0, 3), tk.Circuit(4).X(3).CX(3, 0), tk.Circuit(3).H(1).CX(1, 2).CX(1, 0),
+    n_tk = 400 if quick else 6000
+    hand = [tk.Circuit(4).X(0).CX(0, 3), tk.Circuit(4, 1).X(0).CX(0, 3).Measure(3, 0), tk.Circuit(4).X(3).CX(3, 0), tk.Circuit(3).H(1).CX(1, 2).CX(1, 0),
             tk.Circuit(3, 3).X(0).CX(0, 2).Measure(2, 0).Measure(0, 2), tk.Circuit(2).SWAP(0, 1),
             tk.Circuit(1, 1), tk.Circuit(0, 0), tk.Circuit(2, 1).Rx(0.5, 1).CRz(1.25, 1, 0).Measure(0, 0)]
-    for i, t in enumerate(hand + [gen_tk(rng, tk) for _ in range(n_tk)]):
-        raw = [t.n_qubits, len(t.bits), [[n, p, q, b] for n, p, q, b in tksim.commands(t)]]
-        rep.case(["import", raw], nontrivial=len(raw[2]) >= 2, sample={"stream": "tket", "tk": repr(t.get_commands())})
-        rep.programs += 1
-        rep.count("stream:tket")
-        payload = {"tk_raw": raw, "replay": snippet("import", raw)}
-        try:
-            up = dtk.Circuit.upgrade(t)
-            want = tksim.distribution(up)
-            check_import(rep, ti, tksim, t, want, payload, "tket")
-        except common.CaseTimeout:
-            rep.violation("timeout while checking a tket circuit", payload)
-        except Exception as exc:   # noqa
-            rep.violation("the check itself failed on a tket circuit: %s: %s" % (type(exc).__name__, exc), payload)
+    raws = []
+    for t in hand + [gen_tk(rng, tk) for _ in range(n_tk)]:
+        raws.append([t.n_qubits, len(t.bits), [[n, p, q, b] for n, p, q, b in tksim.commands(t)]])
+
+    common.ensure_runner("tk")
+    workers = 8
+    jobs = [("export", items[k::workers]) for k in range(workers)] + \
+           [("import", raws[k::workers]) for k in range(workers)]
+    ctx = multiprocessing.get_context("fork")
+    with ctx.Pool(workers) as pool:
+        parts = pool.map(_worker, jobs, chunksize=1)
+    for part in parts:
+        for k, v in part.hist.items():
+            rep.count(k, v)
+        for fid, what in part.known:
+            rep.known_finding(fid, what)
+        for what, payload, found in part.violations:
+            rep.violation(what, payload, found)
+        rep.disagreements_checked += part.disagreements_checked
+        for key in ("disagreements", "numerically_invisible"):
+            if part.extra.get(key):
+                rep.extra.setdefault(key, []).extend(part.extra[key])
+        for canonical, nontrivial, sample in part.cases:
+            rep.case(canonical, nontrivial=nontrivial, sample=sample)
+            rep.programs += 1
 
     base.settle(rep, "C13", proof_ok, "C13")
     return rep.finish(
